@@ -9,6 +9,7 @@ package layers
 import (
 	"encoding/binary"
 	"fmt"
+	"math"
 	"net"
 
 	"github.com/gopacket/gopacket"
@@ -143,6 +144,17 @@ func (d *DHCPv6) Len() int {
 // SerializationBuffer, implementing gopacket.SerializableLayer.
 // See the docs for gopacket.SerializableLayer for more info.
 func (d *DHCPv6) SerializeTo(b gopacket.SerializeBuffer, opts gopacket.SerializeOptions) error {
+	for i := range d.Options {
+		o := &d.Options[i]
+		if len(o.Data) > math.MaxUint16 {
+			return fmt.Errorf("DHCPv6 option %s data too long (%d bytes)", o.Code, len(o.Data))
+		}
+		if opts.FixLengths {
+			o.Length = uint16(len(o.Data))
+		} else if int(o.Length) != len(o.Data) {
+			return fmt.Errorf("DHCPv6 option %s length %d does not match data length %d", o.Code, o.Length, len(o.Data))
+		}
+	}
 	plen := int(d.Len())
 
 	data, err := b.PrependBytes(plen)
